@@ -42,7 +42,8 @@ type accCtx struct {
 	fset    *token.FileSet
 	info    *types.Info
 	fields  map[*types.Var]fieldInfo
-	wrapper map[string]struct { // "<recvType>.<method>" -> lock wrapper
+	containerField map[fieldInfo]bool // map- or slice-typed fields
+	wrapper        map[string]struct { // "<recvType>.<method>" -> lock wrapper
 		lock   string
 		shared bool
 	}
@@ -168,16 +169,71 @@ func terminates(list []ast.Stmt) bool {
 }
 
 func (w *walker) block(list []ast.Stmt, held lockState) lockState {
-	for _, st := range list {
+	for i, st := range list {
+		rest = list[i+1:]
 		held = w.stmt(st, held)
 	}
 	return held
 }
 
+// statements that follow the current one in its block (for the swap idiom)
+var rest []ast.Stmt
+
+func stripSlice(e ast.Expr) ast.Expr {
+	for {
+		switch x := e.(type) {
+		case *ast.SliceExpr:
+			e = x.X
+			continue
+		case *ast.ParenExpr:
+			e = x.X
+			continue
+		}
+		return e
+	}
+}
+
+// swappedLater: before the next Unlock in the same block the field is assigned a value that is not itself a field
+func (w *walker) swappedLater(se *ast.SelectorExpr, following []ast.Stmt) bool {
+	want := exprStr(w.c.fset, se)
+	for _, st := range following {
+		switch s := st.(type) {
+		case *ast.ExprStmt:
+			if call, ok := s.X.(*ast.CallExpr); ok {
+				if _, op, ok := w.lockCall(call); ok && (op == "Unlock" || op == "RUnlock") {
+					return false
+				}
+			}
+		case *ast.AssignStmt:
+			for i, l := range s.Lhs {
+				if exprStr(w.c.fset, l) == want && i < len(s.Rhs) {
+					if _, _, isField := w.c.fieldOf(stripSlice(s.Rhs[i])); !isField {
+						return true
+					}
+				}
+			}
+		}
+	}
+	return false
+}
+
 func (w *walker) nested(list []ast.Stmt, held lockState, pos token.Pos) {
 	out := w.block(list, held.clone())
-	if !out.equal(held) && !terminates(list) {
-		w.c.errs = append(w.c.errs, fmt.Sprintf("%s: lock state changes across a nested block that does not end in return/break/panic", w.c.fset.Position(pos)))
+	// a lock acquired inside the block and kept (Lock + defer Unlock under a condition) is simply not counted afterwards
+	// (conservative); a lock RELEASED inside a block that falls through would make the analysis unsound: refuse.
+	released := false
+	for k := range held.excl {
+		if !out.excl[k] {
+			released = true
+		}
+	}
+	for k := range held.shared {
+		if !out.shared[k] {
+			released = true
+		}
+	}
+	if released && !terminates(list) {
+		w.c.errs = append(w.c.errs, fmt.Sprintf("%s: a lock is released inside a nested block that does not end in return/break/panic", w.c.fset.Position(pos)))
 	}
 }
 
@@ -214,7 +270,13 @@ func (w *walker) stmt(st ast.Stmt, held lockState) lockState {
 		w.expr(s.Call, lockState{map[string]bool{}, map[string]bool{}}, "read", nil)
 	case *ast.AssignStmt:
 		for _, r := range s.Rhs {
-			w.expr(r, held, "read", nil)
+			mode := "read"
+			// a map or slice held in a field is copied into a local: the local aliases the container. Harmless when the
+			// field is replaced by a fresh container before the lock is released (the swap idiom); otherwise kind alias.
+			if fi, se, ok := w.c.fieldOf(stripSlice(r)); ok && w.c.containerField[fi] && !w.swappedLater(se, rest) {
+				mode = "alias"
+			}
+			w.expr(r, held, mode, nil)
 		}
 		for i, l := range s.Lhs {
 			w.expr(l, held, "write", nil)
@@ -422,7 +484,11 @@ func (w *walker) expr(e ast.Expr, held lockState, mode string, _ ast.Node) {
 		w.expr(x.X, held, mode, nil)
 		w.expr(x.Index, held, "read", nil)
 	case *ast.SliceExpr:
-		w.expr(x.X, held, "read", nil)
+		if mode == "alias" {
+			w.expr(x.X, held, "alias", nil)
+		} else {
+			w.expr(x.X, held, "read", nil)
+		}
 		w.expr(x.Low, held, "read", nil)
 		w.expr(x.High, held, "read", nil)
 		w.expr(x.Max, held, "read", nil)
@@ -623,7 +689,7 @@ func extractAccess(repo string) (string, error) {
 			if err != nil {
 				return "", fmt.Errorf("type-checking %s: %v", dir, err)
 			}
-			c := &accCtx{fset: fset, info: info, fields: map[*types.Var]fieldInfo{}, pkg: pkg, wrapper: map[string]struct {
+			c := &accCtx{fset: fset, info: info, fields: map[*types.Var]fieldInfo{}, containerField: map[fieldInfo]bool{}, pkg: pkg, wrapper: map[string]struct {
 				lock   string
 				shared bool
 			}{}}
@@ -643,6 +709,10 @@ func extractAccess(repo string) (string, error) {
 					}
 					c.fields[f] = fieldInfo{tn, f.Name(), typeStr(f.Type(), pkg)}
 					allFields = append(allFields, c.fields[f])
+					switch f.Type().Underlying().(type) {
+					case *types.Map, *types.Slice:
+						c.containerField[c.fields[f]] = true
+					}
 				}
 			}
 			findWrappers(c, files)
